@@ -422,7 +422,7 @@ def materialise(plan, root, fragment=None, twin=False):
 
 
 ENTRIES = ["abs-path", "rel-path", "rel-dot", "rel-updown", "url", "url1",
-           "url-host", "file-abs", "file-rel"]
+           "url-host", "file-abs", "file-rel", "file-bytes"]
 
 
 def _enter(entry, full, loader_url, loader_file, preread=0):
@@ -451,7 +451,11 @@ def _enter(entry, full, loader_url, loader_file, preread=0):
     if entry == "url-host":
         # the host of a file: URL spelled out: this machine
         return loader_url("file://localhost" + pathname2url(full))
-    name = full if entry == "file-abs" else os.path.relpath(full)
+    name = os.path.relpath(full) if entry == "file-rel" else full
+    if entry == "file-bytes":
+        # the file was opened by its name as BYTES (os.fsencode): the file
+        # object's name is that bytes object
+        name = os.fsencode(name)
     with open(name, encoding="utf-8") as f:
         return loader_file(f)
 
